@@ -208,7 +208,7 @@ def struct_invariants(func):
         if p["ty"] == "struct lbuf *":
             f = lambda x: Lin({"%s->%s" % (nm, x): 1})
             out += [f("ln_n"), f("ln_sz") - f("ln_n"), f("hist_u"), f("hist_n") - f("hist_u"),
-                    f("hist_sz") - f("hist_n")]
+                    f("hist_sz") - f("hist_n"), f("ln_sz"), f("hist_sz"), f("hist_n")]
         if p["ty"] == "struct sbuf *":
             f = lambda x: Lin({"%s->%s" % (nm, x): 1})
             out += [f("s_n"), f("s_sz") - f("s_n")]
@@ -427,4 +427,160 @@ def guarded_inc_hyps(func, use, names):
         if ok and K is not None and n_st:
             # constants must not exceed K: checked by the caller's prover through  c <= K  facts
             out.append((v, K, consts))
+    return out
+
+
+# ---------------------------------------------------------------------------------------
+# path-sensitive proving inside one function (acyclic paths, scalar stores tracked)
+
+def loop_stored_names(func):
+    """{loop header block: set of scalar names / member keys stored inside the loop}"""
+    cfg = func.cfg
+    out = {}
+    for h, body in cfg.loops().items():
+        names = set()
+        for b in body:
+            for e in cfg.blocks[b].ev:
+                n = func.nodes.get(e)
+                if n is None:
+                    continue
+                tgt = None
+                if n["k"] == "bin" and n["op"] in ASSIGN_OPS_B:
+                    tgt = n["l"]
+                elif n["k"] == "un" and n["op"] in ("post++", "pre++", "post--", "pre--"):
+                    tgt = n["e"]
+                elif n["k"] == "call":
+                    for a in n["args"]:
+                        a = strip_casts(a)
+                        if a["k"] == "un" and a["op"] == "&" and a["e"]["k"] == "ref":
+                            names.add(a["e"]["name"])
+                if tgt is None:
+                    continue
+                if tgt["k"] == "ref":
+                    names.add(tgt["name"])
+                elif tgt["k"] == "member" or (tgt["k"] == "un" and tgt["op"] == "*" and tgt["e"]["k"] == "ref"):
+                    names.add(key(tgt))
+        out[h] = names
+    return out
+
+
+ASSIGN_OPS_B = ("=", "+=", "-=", "*=", "/=", "%=", "|=", "&=", "^=", "<<=", ">>=")
+
+
+def path_states(func, target_nid, init_hyps=None, max_paths=4000, header_hyps=None,
+                assume_fields=None, base_case=False):
+    """For every acyclic path from the entry to the event: (subst, hyps, items).  Scalar
+    locals, globals and `param->field` lvalues are tracked by substitution, so plain atoms
+    always denote *initial* values and facts never go stale; compound atoms (`(*loc)`,
+    `a[i]`) that mention a name stored since are versioned; ?: values are resolved by the
+    path's own branch."""
+    import re as _re
+    from .cfg import paths_to
+    from .util import path_consistent
+    from . import lin as _lin
+    cfg = func.cfg
+    out = []
+    lsn = loop_stored_names(func)
+    for items in paths_to(cfg, cfg.entry, target_nid, max_paths=max_paths):
+        if not path_consistent(func, items):
+            continue
+        subst = {}
+        hyps = list(init_hyps or [])
+        byid = {}
+        epoch = {}
+        blks = [x for x in items if x[0] == "blk"]
+        items_last_blk = blks[-1] if blks else None
+
+        def version(l):
+            if l is None:
+                return None
+            if isinstance(l, tuple):
+                return (l[0], version(l[1]))
+            if not epoch:
+                return l
+            o = Lin(k=l.k)
+            for a, v in l.c.items():
+                b = a
+                if not (a.isidentifier() or a in epoch or a.startswith("?")):
+                    tags = []
+                    for nm, e in epoch.items():
+                        if _re.search(r"(?<![\w>.])%s(?![\w])" % _re.escape(nm), a):
+                            tags.append("%s%d" % (nm, e))
+                    if tags:
+                        b = a + "#" + ",".join(sorted(tags))
+                o.c[b] = o.c.get(b, 0) + v
+            return o
+
+        def lin_now(e):
+            _lin._COND_RES[0] = byid
+            try:
+                return version(linearize(e, subst))
+            finally:
+                _lin._COND_RES[0] = None
+
+        for it in items:
+            if it[0] == "blk":
+                # entering a loop header: everything the loop stores has an unknown value
+                # (inductive step).  The caller's header hypotheses are re-assumed only for
+                # loops that store one of the fields they speak about (their base case is a
+                # separate obligation: base_case=True proves them on arrival at the header).
+                if it[1] in lsn and lsn[it[1]]:
+                    if base_case and it is items_last_blk:
+                        continue
+                    for nm in lsn[it[1]]:
+                        subst[nm] = Lin({"?%s@h%d" % (nm, it[1]): 1})
+                        epoch[nm] = epoch.get(nm, 0) + 1
+                    if header_hyps and (assume_fields is None or
+                                        any(nm.endswith("->" + fl) for nm in lsn[it[1]] for fl in assume_fields)):
+                        hyps += header_hyps(subst)
+                continue
+            if it[0] == "br":
+                c = func.nodes[it[1]]
+                byid[c["id"]] = it[2]
+                _lin._COND_RES[0] = byid
+                try:
+                    hyps += [version(h) for h in cmp_constraints(c, it[2], subst)]
+                finally:
+                    _lin._COND_RES[0] = None
+                continue
+            n = func.nodes.get(it[1])
+            if n is None:
+                continue
+            if n["k"] == "call":
+                for a in n["args"]:
+                    a = strip_casts(a)
+                    if a["k"] == "un" and a["op"] == "&" and a["e"]["k"] == "ref":
+                        nm = a["e"]["name"]
+                        epoch[nm] = epoch.get(nm, 0) + 1
+                        subst[nm] = Lin({"?%s@%d" % (nm, it[1]): 1})
+                continue
+            tgt = op = rhs = None
+            if n["k"] == "bin" and n["op"] in ("=", "+=", "-="):
+                tgt, op, rhs = n["l"], n["op"], n["r"]
+            elif n["k"] == "un" and n["op"] in ("post++", "pre++", "post--", "pre--"):
+                tgt, op = n["e"], n["op"]
+            elif n["k"] == "var" and "init" in n:
+                tgt, op, rhs = n, "=", n["init"]
+            if tgt is None:
+                continue
+            if tgt["k"] in ("ref", "var"):
+                nm = tgt["name"]
+            elif tgt["k"] == "member" or (tgt["k"] == "un" and tgt["op"] == "*" and tgt["e"]["k"] == "ref"):
+                nm = key(tgt)
+            else:
+                continue
+            old = subst.get(nm) or Lin({nm: 1})
+            if op == "=":
+                val = strip_casts(rhs)
+                new = lin_now(val) if val is not None else None
+                if new is not None and val["k"] == "cond" and strip_casts(val["c"])["id"] not in byid:
+                    new = None
+            elif op in ("+=", "-="):
+                r = lin_now(strip_casts(rhs))
+                new = None if r is None else (old + r if op == "+=" else old - r)
+            else:
+                new = old + Lin(k=1 if "++" in op else -1)
+            subst[nm] = new if new is not None else Lin({"?%s@%d" % (nm, it[1]): 1})
+            epoch[nm] = epoch.get(nm, 0) + 1
+        out.append((subst, hyps, items))
     return out
